@@ -349,6 +349,9 @@ impl C02 {
                     _ => {
                         if stderr.contains("refsolver-budget") || stderr.contains("refsolver-internal") || first == "unknown" {
                             sh.count("corpus_runs_over_the_backend_effort_bound", 1);
+                        } else if stderr.contains("Found unsatisfiable constraints") {
+                            // the tool always checks the constraints and aborts by design when they cannot hold
+                            sh.count("corpus_cli_runs_aborting_on_unsatisfiable_constraints", 1);
                         } else {
                             let loc = stderr.lines().find(|l| l.contains("panicked at")).map(|l| l.split("panicked at ").nth(1).unwrap_or("").split(':').take(2).collect::<Vec<_>>().join(":")).unwrap_or_else(|| "no-panic".into());
                             sh.violation(format!("C02|corpus|cli|no-verdict|{}", util::short_path(&loc)), format!("{cfg_txt} {name} exited with {:?} and no verdict\nstdout: {}\nstderr: {}", out.status.code(), util::trunc(&stdout, 400), util::trunc(&stderr, 1200)), json!({"file": name}));
